@@ -69,6 +69,7 @@ func c01(c *ctx) {
 	}
 	entriesSeen := map[string]bool{}
 	f := &family{c: c, tag: "c01", variantSeed: true,
+		retries: []string{"memo", "nomemo"},
 		configs: []config{{name: "memo", v: vPlain, memo: true}, {name: "nomemo", v: vPlain, memo: false}}}
 	f.judge = func(cs *gcase, e entry, it *ref.Interp, refOK bool, refEnd int, res map[string]*corpus.Res) {
 		covAccumulate(c, it)
